@@ -109,6 +109,8 @@ func c18Ctx(variant int) map[string]interface{} {
 		"m":  map[string]interface{}{"b": 2, "a": 1, "nested": map[string]interface{}{"k": c18Spare(1, 2)}, "list": c18Spare("l1", "l2")},
 		"m2": map[string]interface{}{"c": 3, "a": 9},
 		"tm": map[string]string{"x": "1", "y": "2"}, "tmi": map[string]int{"one": 1, "two": 2}, "im": map[int]string{2: "two", 1: "one"}, "mii": map[interface{}]interface{}{7: "seven", "k": "v", 2.5: c18Spare(1)},
+		"yl":  []interface{}{map[interface{}]interface{}{"title": "t", 1: "one"}, "plain", map[interface{}]interface{}{"nested": map[interface{}]interface{}{"k": "v"}}},
+		"ym":  map[string]interface{}{"page": map[interface{}]interface{}{"title": "home", "tags": c18Spare("a", "b")}, "n": 1},
 		"nest": c18Spare(c18Spare(2, 1), c18Spare("d", "c"), map[string]interface{}{"q": c18Spare(1)}),
 		"st":   c18Struct{Name: "s", Items: c18Spare(2, 1), Tags: c18SpareStr("t2", "t1"), Meta: map[string]interface{}{"k": "v"}, Ptr: inner, priv: []int{1, 2}},
 		"pst":  &c18Struct{Name: "ps", Items: c18Spare("b", "a"), Tags: c18SpareStr("u2", "u1"), Meta: map[string]interface{}{"k": c18Spare(1)}, Ptr: inner},
@@ -222,7 +224,7 @@ func c18Snapshot(ctx map[string]interface{}) map[string]string {
 	return out
 }
 
-var c18Vars = []string{"xs", "ys", "empty", "ss", "is", "fs", "arr", "parr", "m", "m2", "tm", "tmi", "im", "mii", "nest", "st.Items", "st.Tags", "pst.Items", "st.Meta", "pst.Meta.k", "pn.List", "m.list", "m.nested.k", "nest[0]", "s"}
+var c18Vars = []string{"xs", "ys", "empty", "ss", "is", "fs", "arr", "parr", "m", "m2", "tm", "tmi", "im", "mii", "yl", "ym", "ym.page", "yl[0]", "nest", "st.Items", "st.Tags", "pst.Items", "st.Meta", "pst.Meta.k", "pn.List", "m.list", "m.nested.k", "nest[0]", "s"}
 var c18Filters = []string{"sort", "reverse", "merge(ys)", "merge(xs)", "merge(m2)", "merge([9, 8])", "merge({'z': 1})", "merge(%W)", "merge(%W)", "merge(%W)", "default(%W)", "replace(%W)", "slice(0, 2)|merge(%W)", "keys|merge(%W)", "merge(%W)|sort", "slice(1, 2)", "slice(0, 1)", "slice(-2)", "slice(1)", "keys", "default([1])", "first", "last", "length", "join(',')", "json_encode", "upper", "lower",
 	"capitalize", "title", "trim", "split(' ')", "replace('a', 'b')", "abs", "round", "number_format(1)", "escape", "raw", "striptags", "nl2br", "url_encode", "format(1)", "date('Y')", "spaceless", "count"}
 
